@@ -100,3 +100,15 @@ Theorem C17_restart_race_refuted :
   exists threads sched, forallb initial_pc threads = true /\ restart_race_b threads sched = true.
 Proof. exact restart_race_refuted. Qed.
 Print Assumptions C17_restart_race_refuted.
+
+(* dependency recursion after the fix b7945d3: a revisited application (cycle) is rejected with
+   ErrApplicationDepends (5) and nothing is started; an unknown one with ErrApplicationUnknown (4) *)
+Theorem C17_cyclic_deps_rejected f specs nd vis a :
+  a_st (get nd a) <> 0 -> mem a vis = true -> start_rec (S f) specs nd vis a = (nd, 5, []).
+Proof. exact (seq_cycle_detected f specs nd vis a). Qed.
+Print Assumptions C17_cyclic_deps_rejected.
+
+Theorem C17_unknown_app_rejected f specs nd vis a :
+  a_st (get nd a) = 0 -> start_rec (S f) specs nd vis a = (nd, 4, []).
+Proof. exact (seq_start_unknown f specs nd vis a). Qed.
+Print Assumptions C17_unknown_app_rejected.
